@@ -1594,7 +1594,9 @@ func smtIntConst(v *big.Int) string {
 	return v.String()
 }
 
-func quoteSym(s string) string { return "|" + strings.NewReplacer("|", "!", "\\", "!").Replace(s) + "|" }
+func quoteSym(s string) string {
+	return "|" + strings.NewReplacer("|", "!", "\\", "!").Replace(s) + "|"
+}
 
 // head renders t given the rendered names of its arguments.
 func (tb *TB) head(t *Term, args []string) string {
